@@ -27,7 +27,14 @@
  *    by one whose block has room for exactly the frame, and by one with one
  *    octet to spare; the receivers differ in attached memory width and in the
  *    way their source delivers (octet-wise, chunks, chunks through a scratch
- *    buffer of 64 octets);
+ *    buffer of 64 octets).  How much of a block the receiver keeps for itself
+ *    is not this harness's business: "room for exactly n octets" is a block
+ *    size whose capacity the library itself shows to be n (it accepts a
+ *    well-formed reference request of n octets and refuses the one of n+1,
+ *    regp_ref.h: drv_learn_capacity);
+ *  - an emitter may refuse a call (negative return) as long as it then puts
+ *    nothing on the wire: no frame was emitted, the statement says nothing
+ *    about it (outcome class "refused" when a whole case consists of them);
  *  - sink answers: every emitter x transport x octet/chunk sink, the sink
  *    answering EAGAIN / EINTR / a short write / a zero-length write / a hard
  *    error at every call position (and a second such answer behind it): an
@@ -97,7 +104,8 @@ follows(long es, const char *who)
     return true;
 }
 
-/* a new emitting instance that has already sent `before` requests */
+/* a new emitting instance that has already sent `before` requests (a request
+ * that is refused without emitting anything is not one of them) */
 static bool
 new_session(bool tcp, bool m16, unsigned before)
 {
@@ -107,8 +115,10 @@ new_session(bool tcp, bool m16, unsigned before)
         A.outlen = 0;
         const int rc = (i & 1) ? regp_req_read8(&A.p, i, 1) : regp_req_read16(&A.p, i, 1);
         mc_trans(1);
+        if (rc < 0 && A.outlen == 0)
+            continue;
         if (rc < 0) {
-            mc_fail("C08/emit-succeeds", "request %u of the session returned %d", i, rc);
+            mc_fail("C08/emit-succeeds", "request %u of the session returned %d with %zu octets on the wire", i, rc, A.outlen);
             return false;
         }
         if (!follows(emitted_seq(tcp), "a read request"))
@@ -290,10 +300,30 @@ receive(const struct rframe *want, const char *name, bool tcp, bool rm16, size_t
     return ok;
 }
 
+/* (2b) the receiver whose block has room for exactly `room` octets: the block
+ * size is the one whose capacity the library shows to be `room`.  Without such
+ * a block size (the library's answers define no capacity, or not this one) the
+ * receiver is left out and the run is not exhaustive. */
+static bool
+receive_fitted(const struct rframe *want, const char *name, bool tcp, bool rm16, size_t room, int srcmode, const char *what)
+{
+    static bool capped;
+    const size_t bsz = drv_block_for_capacity(room, !tcp);
+    if (bsz == 0) {
+        if (!capped)
+            mc_cap("no block size with a learned capacity of exactly the frame (+1): fitted receivers left out");
+        capped = true;
+        mc_log("receiver (%s): no block size shows a capacity of %zu octets, left out", what, room);
+        return true;
+    }
+    mc_log("receiver (%s): block of %zu octets shows a capacity of %zu", what, bsz, room);
+    return receive(want, name, tcp, rm16, bsz, srcmode, what);
+}
+
 /* the reference wire image of the last emission that passed clause (1) */
 static unsigned char g_ref_wire[2 * RR_MAXFRAME + 16];
 static size_t g_ref_wn;
-static bool g_refused; /* the last emission was refused without emitting anything (admitted for a word size mismatch only) */
+static bool g_refused; /* the last emission was refused without emitting anything */
 
 /* one emission; returns false after a recorded failure.  fresh: on a new
  * instance (responses, meta); otherwise on the session set up by new_session */
@@ -319,8 +349,9 @@ one(int e, bool tcp, bool m16, int anstype, uint32_t addr, uint16_t seq, size_t 
     size_t rn = 0;
     mc_log("%s (request options %x) rc=%d emitted %zu octets", ENAME[e], m.req.header.options, rc, A.outlen);
     mc_log_hex("wire", A.out, A.outlen);
-    if (rc < 0 && m.mismatch && A.outlen == 0) {
-        /* refusing to acknowledge a request of the other word size emits no frame */
+    if (rc < 0 && A.outlen == 0) {
+        /* a refused call that puts nothing on the wire emits no frame (e.g.
+         * refusing to acknowledge a request of the other word size) */
         g_refused = true;
         if (fresh)
             drv_release(&A);
@@ -328,7 +359,7 @@ one(int e, bool tcp, bool m16, int anstype, uint32_t addr, uint16_t seq, size_t 
         return true;
     }
     if (rc < 0) {
-        mc_fail("C08/emit-succeeds", "%s returned %d", ENAME[e], rc);
+        mc_fail("C08/emit-succeeds", "%s returned %d with %zu octets on the wire", ENAME[e], rc, A.outlen);
         ok = false;
     }
     /* (1) wire octets vs reference.  The WORD-SIZE-16 bit of payload-less
@@ -375,15 +406,15 @@ one(int e, bool tcp, bool m16, int anstype, uint32_t addr, uint16_t seq, size_t 
     if (ok && e <= E_REQ_WRITE16)
         ok = follows(emitted_seq(tcp), ENAME[e]);
     /* (2) own receiver: a large block; a block with room for exactly this
-     * frame behind the frame descriptor; one octet to spare.  The receiving
-     * instance's memory width is its own business, as is the way its source
-     * delivers the octets. */
+     * frame (learned capacity == frame length); one octet to spare.  The
+     * receiving instance's memory width is its own business, as is the way its
+     * source delivers the octets. */
     if (ok)
         ok = receive(&want, ENAME[e], tcp, m16, 4096, DRV_SRC_CHUNK, "block of 4096 octets");
     if (ok)
-        ok = receive(&want, ENAME[e], tcp, !m16, sizeof(RPFrame) + rn, tcp ? DRV_SRC_CHUNK_GETBUFFER : DRV_SRC_OCTET, "block with room for exactly the frame");
+        ok = receive_fitted(&want, ENAME[e], tcp, !m16, rn, tcp ? DRV_SRC_CHUNK_GETBUFFER : DRV_SRC_OCTET, "block with room for exactly the frame");
     if (ok)
-        ok = receive(&want, ENAME[e], tcp, m16, sizeof(RPFrame) + rn + 1, DRV_SRC_OCTET, "block with one octet to spare");
+        ok = receive_fitted(&want, ENAME[e], tcp, m16, rn + 1, DRV_SRC_OCTET, "block with one octet to spare");
     if (fresh)
         drv_release(&A);
     em_release(&m);
@@ -532,7 +563,7 @@ family_sink_answers(bool th)
                                          th ? "every later call" : "call k+1"))
                                 continue;
                             bool ok = true;
-                            long reached = 0;
+                            long reached = 0, nemitted = 0, nrefused = 0;
                             g_delivered = g_refusals = 0;
                             const int nsz = emits_with_size(e) ? (int)(sizeof SSIZE / sizeof *SSIZE) - (th ? 0 : 1) : 1;
                             for (int ai = 0; ai < (th ? 7 : 2) && ok; ++ai)
@@ -551,15 +582,22 @@ family_sink_answers(bool th)
                                         /* the undisturbed emission: validates it and yields the reference wire image */
                                         g_have_prev = false;
                                         ok = one(e, tcp, m16, anstype, m.addr, m.seq, m.n, m.content, m.value, true, 0);
-                                        if (!ok || g_ref_wn == 0)
+                                        if (!ok)
                                             break;
+                                        if (g_ref_wn == 0) {
+                                            nrefused++; /* refused without emitting: there is no frame to disturb */
+                                            continue;
+                                        }
+                                        nemitted++;
                                         em_prepare(&m);
                                         for (long at = 0; ok; ++at) {
                                             int rc = emit_scripted(&m, osink, at, a1, -1, 0);
                                             if (S.nhit == 0) {
                                                 /* the emission needs fewer calls: this one went undisturbed through this kind of sink */
-                                                if (rc < 0) {
-                                                    mc_fail("C08/emit-succeeds", "%s returned %d on an undisturbed %s sink", ENAME[e], rc, osink ? "octet" : "chunk");
+                                                if (rc < 0 && S.outlen == 0 && !S.overrun)
+                                                    g_refusals++; /* refused, nothing emitted */
+                                                else if (rc < 0) {
+                                                    mc_fail("C08/emit-succeeds", "%s returned %d on an undisturbed %s sink with %zu octets on the wire", ENAME[e], rc, osink ? "octet" : "chunk", S.outlen);
                                                     ok = false;
                                                 } else
                                                     ok = judge_scripted(&m, rc, "nothing unusual");
@@ -582,9 +620,11 @@ family_sink_answers(bool th)
                                         }
                                         em_release(&m);
                                     }
-                            mc_log("%ld call positions reached; %ld emissions reported success with exactly the frame on the wire, %ld reported failure", reached, g_delivered, g_refusals);
-                            /* outcome classes name the script, not the library's reaction to it */
-                            mc_end(reached > 0, !ok ? "failed" : a1 == SA_EIO ? "sink-hard-error" : a1 == SA_ZERO ? "sink-zero-length-write"
+                            mc_log("%ld frames emitted undisturbed, %ld calls refused without emitting; %ld call positions reached; %ld emissions reported success with exactly the frame on the wire, %ld reported failure",
+                                   nemitted, nrefused, reached, g_delivered, g_refusals);
+                            /* outcome classes name the script, not the library's reaction to it (a case in
+                             * which every call was refused without emitting has a class of its own) */
+                            mc_end(reached > 0, !ok ? "failed" : nemitted == 0 ? "refused" : a1 == SA_EIO ? "sink-hard-error" : a1 == SA_ZERO ? "sink-zero-length-write"
                                    : (a1 == SA_SHORT1 || a1 == SA_SHORTM1) ? "sink-short-write" : "sink-retry-request");
                         }
                 }
@@ -671,8 +711,9 @@ main(int argc, char **argv)
                             }
                             if (isreq)
                                 drv_release(&A);
-                            mc_log("%ld emissions, %ld refused without emitting (word size mismatch)", n, refused);
-                            mc_end(true, !ok ? "failed" : e <= E_REQ_WRITE16 ? "request-roundtrip" : e <= E_ACK_EMPTY ? "ack-roundtrip"
+                            mc_log("%ld calls, %ld refused without emitting", n, refused);
+                            /* a case in which no frame was emitted is trivial and has a class of its own */
+                            mc_end(n > refused, !ok ? "failed" : n == refused ? "refused" : e <= E_REQ_WRITE16 ? "request-roundtrip" : e <= E_ACK_EMPTY ? "ack-roundtrip"
                                    : e <= E_EIO ? "error-response-roundtrip" : "meta-roundtrip");
                         }
                 }
@@ -685,6 +726,7 @@ main(int argc, char **argv)
         static const unsigned char pl[4] = { 1, 2, 3, 4 };
         unsigned char scratch[DRV_WIRE];
         long first = -1;
+        uint32_t emitted = 0; /* requests that were not refused */
         RPFrame rq;
         memset(&rq, 0, sizeof rq);
         rq.header.type = RP_FRAME_WRITE_REQUEST;
@@ -707,23 +749,28 @@ main(int argc, char **argv)
             mc_trans(1);
             struct rr_frames fr;
             struct rframe f;
+            if (rc < 0 && A.outlen == 0)
+                continue; /* refused, nothing emitted: not a request of the session */
             if (rc < 0 || rr_unframe(tcp, A.out, A.outlen, scratch, &fr) != 1 || rr_verdict(scratch + fr.off[0], fr.len[0], &f) != RV_OK) {
-                mc_fail("C08/wire-octets", "request %u is not a valid frame (rc=%d)", i, rc);
+                mc_fail("C08/wire-octets", "request %u is not a valid frame (rc=%d, %zu octets on the wire)", i, rc, A.outlen);
                 ok = false;
             } else {
                 if (first < 0)
                     first = f.seq; /* the statement does not fix the first number of a session */
-                if (f.seq != (uint16_t)(first + i)) {
-                    mc_fail("C08/sequence-increments", "request number %u carries sequence %u; the first request of the session carried %ld", i, f.seq, first);
+                if (f.seq != (uint16_t)(first + emitted)) {
+                    mc_fail("C08/sequence-increments", "emitted request number %u (call %u) carries sequence %u; the first request of the session carried %ld", emitted, i, f.seq, first);
                     ok = false;
                 }
+                emitted++;
             }
         }
         drv_release(&A);
-        mc_end(true, ok ? "sequence-wraps" : "failed");
+        mc_log("%u of 65537 calls emitted a request", emitted);
+        /* fewer than 2^16 + 1 emitted requests do not show the wrap */
+        mc_end(emitted > 65536, !ok ? "failed" : emitted > 65536 ? "sequence-wraps" : emitted ? "sequence-partly-refused" : "refused");
     }
     family_sink_answers(th);
-    mc_finish(true, th ? "19 emitters x 2 transports x 2 memory widths x answered type x 7 addresses x 4 sequence numbers x sizes {0..70, boundary sizes up to 1000} x 4 contents / 6 payload values x request option bits (word size equal/different; all 8 combinations for blocks <= 4) x 3 receivers (block of 4096, exact fit, one to spare); 65537 consecutive requests per transport; sink answers: 19 emitters x 2 transports x 2 memory widths x octet/chunk sink x {EAGAIN, EINTR, short write 1, short write n-1, zero-length write, EIO} at every call position x a second answer at every later call position, frames of 0..8 units x 3 contents x 7 addresses / 2 payload values"
-                       : "19 emitters x 2 transports x 2 memory widths x answered type x 7 addresses x 4 sequence numbers x sizes {0..20, boundary sizes up to 1000} x 4 contents / 6 payload values x request option bits (word size equal/different; all 8 combinations for blocks <= 4) x 3 receivers (block of 4096, exact fit, one to spare); 65537 consecutive requests per transport; sink answers: 19 emitters x 2 transports x 2 memory widths x octet/chunk sink x {EAGAIN, EINTR, short write 1, short write n-1, zero-length write, EIO} at every call position x a second answer at the following call, frames of 0..5 units x 3 contents x 2 addresses / 2 payload values");
+    mc_finish(true, th ? "19 emitters x 2 transports x 2 memory widths x answered type x 7 addresses x 4 sequence numbers x sizes {0..70, boundary sizes up to 1000} x 4 contents / 6 payload values x request option bits (word size equal/different; all 8 combinations for blocks <= 4) x 3 receivers (block of 4096; blocks whose capacity, learned from the receiver's own answers to reference requests, is exactly the frame length / one octet more); 65537 consecutive requests per transport; sink answers: 19 emitters x 2 transports x 2 memory widths x octet/chunk sink x {EAGAIN, EINTR, short write 1, short write n-1, zero-length write, EIO} at every call position x a second answer at every later call position, frames of 0..8 units x 3 contents x 7 addresses / 2 payload values"
+                       : "19 emitters x 2 transports x 2 memory widths x answered type x 7 addresses x 4 sequence numbers x sizes {0..20, boundary sizes up to 1000} x 4 contents / 6 payload values x request option bits (word size equal/different; all 8 combinations for blocks <= 4) x 3 receivers (block of 4096; blocks whose capacity, learned from the receiver's own answers to reference requests, is exactly the frame length / one octet more); 65537 consecutive requests per transport; sink answers: 19 emitters x 2 transports x 2 memory widths x octet/chunk sink x {EAGAIN, EINTR, short write 1, short write n-1, zero-length write, EIO} at every call position x a second answer at the following call, frames of 0..5 units x 3 contents x 2 addresses / 2 payload values");
     return 0;
 }
